@@ -242,3 +242,138 @@ Proof.
       * specialize (Hviol Hbad s Hs). lia.
       * specialize (IH Har Hlr Hbad sr Hsr). specialize (Hnn s). lia.
 Qed.
+
+(* ================================================================== *)
+(* cross_zero=True *)
+
+Lemma plan_slack_shape a const lb ub ubc cs :
+  plan_inequality a const lb ub = Slack ubc cs ->
+  ubc = Z.min (sum_pos a) (ub - const) /\
+  cs = slack_coeffs (ubc - lbc_of a const lb) /\ (0 < ubc - lbc_of a const lb)%Z.
+Proof.
+  unfold plan_inequality, lbc_of.
+  set (tu := sum_pos a). set (tl := sum_neg a).
+  destruct ((tu <=? Z.min tu (ub - const)) && (Z.max tl (lb - const) <=? tl))%Z; [discriminate|].
+  destruct (Z.ltb_spec (Z.min tu (ub - const)) (Z.max tl (lb - const))) as [H1|H1]; [discriminate|].
+  destruct (Z.eqb_spec (Z.min tu (ub - const) - Z.max tl (lb - const)) 0) as [H2|H2]; [discriminate|].
+  intros H. inversion H; subst. split; [reflexivity|]. split; [reflexivity|]. lia.
+Qed.
+
+(* with the extra bit of weight lbc > 0 the penalty vanishes exactly on [lbc, ubc] U [0, ubc - lbc] *)
+Lemma cross_zero_gap (U lbc ubc A : Z) :
+  (0 < U)%Z -> (ubc - lbc = U)%Z ->
+  let cs := slack_coeffs U ++ [lbc] in
+  let allowed := ((lbc <= A <= ubc) \/ (0 <= A <= U))%Z in
+  (allowed -> exists bits, length bits = length cs /\ pen_val A (dot cs bits) ubc = 0%Z) /\
+  (~ allowed -> forall bits, length bits = length cs -> (1 <= pen_val A (dot cs bits) ubc)%Z).
+Proof.
+  intros HU Hd cs allowed. unfold cs, allowed, pen_val. split.
+  - intros [HA|HA].
+    + destruct (slack_coeffs_cover_ex U HU (ubc - A)%Z ltac:(lia)) as [b [Hl Hb]].
+      exists (b ++ [false]). split; [rewrite !app_length, Hl; reflexivity|].
+      rewrite dot_app by exact (eq_sym Hl). rewrite Hb. cbn [dot]. nia.
+    + destruct (slack_coeffs_cover_ex U HU (U - A)%Z ltac:(lia)) as [b [Hl Hb]].
+      exists (b ++ [true]). split; [rewrite !app_length, Hl; reflexivity|].
+      rewrite dot_app by exact (eq_sym Hl). rewrite Hb. cbn [dot]. nia.
+  - intros Hna bits Hl. rewrite app_length in Hl. cbn [length] in Hl.
+    assert (Hsplit : exists b z, bits = b ++ [z] /\ length b = length (slack_coeffs U)).
+    { destruct (exists_last (l := bits)) as [b [z Hbz]].
+      - intro X. subst bits. cbn [length] in Hl. lia.
+      - exists b, z. split; [exact Hbz|]. subst bits. rewrite app_length in Hl. cbn [length] in Hl. lia. }
+    destruct Hsplit as [b [z [-> Hlb]]].
+    rewrite dot_app by exact (eq_sym Hlb).
+    pose proof (slack_coeffs_bounded U HU b Hlb) as Hrange. cbn [dot].
+    assert (Hne : (A + (dot (slack_coeffs U) b + ((if z then lbc else 0) + 0)) - ubc <> 0)%Z)
+      by (destruct z; lia).
+    nia.
+Qed.
+
+(* "adds zero to the domain" is not what happens: [1; 7], 5 <= sum <= 8, cross_zero: x = (1, 0) has
+   sum 1 (neither in [5, 8] nor 0) and zero penalty with slack bits (0, 1, 1) *)
+Lemma cross_zero_admits_only_zero_refuted :
+  exists (a : list Z) (const lb ub : Z) (x : list bool) (ubc : Z) (cs : list Z) (s : list bool),
+    length x = length a /\
+    plan_inequality_cz true a const lb ub = Slack ubc cs /\ length s = length cs /\
+    ~ (lb <= dot a x + const <= ub)%Z /\ dot a x <> 0%Z /\
+    ineq_penalty a x cs s ubc = 0%Z.
+Proof.
+  exists [1; 7]%Z, 0%Z, 5%Z, 8%Z, [true; false], 8%Z, [1; 2; 5]%Z, [false; true; true].
+  split; [reflexivity|]. split; [vm_compute; reflexivity|]. split; [reflexivity|].
+  split; [cbn [dot]; lia|]. split; [cbn [dot]; lia|vm_compute; reflexivity].
+Qed.
+
+Lemma plan_inequality_cz_off a const lb ub :
+  plan_inequality_cz false a const lb ub = plan_inequality a const lb ub.
+Proof. unfold plan_inequality_cz. destruct (plan_inequality a const lb ub); reflexivity. Qed.
+
+Lemma plan_inequality_cz_nonpositive a const lb ub :
+  (lbc_of a const lb <= 0)%Z -> plan_inequality_cz true a const lb ub = plan_inequality a const lb ub.
+Proof.
+  intros H. unfold plan_inequality_cz. destruct (plan_inequality a const lb ub); try reflexivity.
+  destruct (Z.ltb_spec 0 (lbc_of a const lb)); [lia|reflexivity].
+Qed.
+
+(* cross_zero=True, lb_c > 0: what the added objective admits *)
+Theorem cross_zero_plan_sound (a : list Z) (const lb ub : Z) (x : list bool) (ubc : Z) (cs : list Z) :
+  length x = length a -> (0 < lbc_of a const lb)%Z ->
+  plan_inequality_cz true a const lb ub = Slack ubc cs ->
+  let A := dot a x in
+  let allowed := ((lb <= A + const <= ub) \/ (0 <= A <= ubc - lbc_of a const lb))%Z in
+  (allowed -> exists s, length s = length cs /\ ineq_penalty a x cs s ubc = 0%Z) /\
+  (~ allowed -> forall s, length s = length cs -> (1 <= ineq_penalty a x cs s ubc)%Z).
+Proof.
+  intros Hlen Hpos Hplan A allowed. unfold plan_inequality_cz in Hplan.
+  destruct (plan_inequality a const lb ub) as [| |u|u cs0] eqn:Ep; try discriminate Hplan.
+  destruct (plan_slack_shape a const lb ub u cs0 Ep) as [Hu [Hcs HU]].
+  destruct (Z.ltb_spec 0 (lbc_of a const lb)) as [_|Hc]; [|lia]. cbn [andb] in Hplan.
+  inversion Hplan; subst ubc cs. clear Hplan.
+  pose proof (dot_sum_bounds a x) as Hb. fold A in Hb.
+  set (lbc := lbc_of a const lb) in *.
+  assert (Hfe : ((lb <= A + const <= ub) <-> (lbc <= A <= u))%Z).
+  { unfold lbc, lbc_of. rewrite Hu. lia. }
+  rewrite Hcs.
+  destruct (cross_zero_gap (u - lbc) lbc u A HU ltac:(lia)) as [G1 G2].
+  unfold allowed. split.
+  - intros Had. apply G1. rewrite <- Hfe. exact Had.
+  - intros Hna s Hs. apply G2; [|exact Hs]. rewrite <- Hfe. exact Hna.
+Qed.
+
+(* ================================================================== *)
+(* DQM inequality at the level of DQM samples: the bounds (computed as if all cases were independent
+   0/1 variables) are sound - only looser - for one-case-per-variable samples, and the log2 / linear
+   slack variables give the gap *)
+Theorem dqm_inequality_gap (m : slack_method) (terms : list dterm) (const lb ub : Z) (sel : nat -> nat) :
+  m <> Log10 ->
+  let a := map snd terms in
+  let A := dqm_sum terms sel in
+  let feasible := (lb <= A + const <= ub)%Z in
+  (sum_neg a <= A <= sum_pos a)%Z /\
+  match plan_inequality a const lb ub with
+  | Skip => feasible
+  | Infeasible => ~ feasible
+  | Equality ubc => feasible <-> A = ubc
+  | Slack ubc _ =>
+      let U := (ubc - lbc_of a const lb)%Z in
+      (feasible -> exists sl, In sl (choice_sums (dqm_slack_values m U)) /\ pen_val A sl ubc = 0%Z) /\
+      (~ feasible -> forall sl, In sl (choice_sums (dqm_slack_values m U)) -> (1 <= pen_val A sl ubc)%Z)
+  end.
+Proof.
+  intros Hm a A feasible.
+  assert (Hlen : length (dqm_bits terms sel) = length a) by (unfold dqm_bits, a; rewrite !map_length; reflexivity).
+  pose proof (plan_inequality_sound a const lb ub (dqm_bits terms sel) Hlen) as Hp. cbv zeta in Hp.
+  change (dot a (dqm_bits terms sel)) with A in Hp. destruct Hp as [Hb Hp]. split; [exact Hb|].
+  destruct (plan_inequality a const lb ub) as [| |ubc|ubc cs] eqn:Ep; try exact Hp.
+  destruct (plan_slack_shape a const lb ub ubc cs Ep) as [Hu [_ HU]].
+  assert (Hfe : (feasible <-> (ubc - (ubc - lbc_of a const lb) <= A <= ubc))%Z).
+  { unfold feasible, lbc_of. clearbody A a. subst ubc. clear -Hb. split; intros H; lia. }
+  assert (G : forall U, (0 < U)%Z ->
+            ((ubc - U <= A <= ubc)%Z -> exists sl, In sl (choice_sums (dqm_slack_values m U)) /\ pen_val A sl ubc = 0%Z) /\
+            (~ (ubc - U <= A <= ubc)%Z -> forall sl, In sl (choice_sums (dqm_slack_values m U)) -> (1 <= pen_val A sl ubc)%Z)).
+  { intros U HU0. destruct m.
+    - destruct (dqm_log2_gap U A ubc HU0) as [G1 [G2 _]]. split; assumption.
+    - exfalso. apply Hm. reflexivity.
+    - destruct (dqm_linear_gap U A ubc HU0) as [G1 [G2 _]]. split; assumption. }
+  destruct (G _ HU) as [G1 G2]. split.
+  - intros Hf. apply G1. apply Hfe. exact Hf.
+  - intros Hnf. apply G2. intro X. apply Hnf. apply Hfe. exact X.
+Qed.
